@@ -72,6 +72,9 @@ func (w *World) genScalar(limit uint32) *Node {
 	if mode == "hostile" {
 		intPct = 25
 	}
+	if mode == "medium" {
+		intPct = 8
+	}
 	if roll < intPct {
 		var v uint64
 		if r.Intn(3) == 0 {
@@ -97,6 +100,14 @@ func (w *World) genScalar(limit uint32) *Node {
 	switch mode {
 	case "small":
 		size = 1 + r.Intn(28)
+	case "medium": // a leaf holds 2-4 elements: many leaves (deep trees) from few elements
+		if cls < 75 {
+			size = int(limit)/2 - 3 + r.Intn(7)
+		} else if cls < 90 {
+			size = int(limit)/3 + r.Intn(5)
+		} else {
+			size = 1 + r.Intn(28)
+		}
 	case "mixed":
 		switch {
 		case cls < 55:
@@ -225,7 +236,7 @@ func (w *World) genKey(n *Node, space int) *Node {
 	case roll < 58:
 		return &Node{Kind: KU8, U: uint64(r.Intn(space)) & 0xff}
 	case roll < 64:
-		return &Node{Kind: KU16, U: uint64(r.Intn(space))}
+		return &Node{Kind: KU16, U: uint64(r.Intn(space)) & 0xffff}
 	case roll < 70:
 		return &Node{Kind: KU32, U: uint64(r.Intn(space))}
 	case roll < 88:
